@@ -110,6 +110,36 @@ func RunRestore(r *rt.Run) error {
 				n++
 				t.Distinct(fmt.Sprintf("restore/%d/%d/%s", ai, bi, variant))
 			}
+			// the handler registry changes WHILE the topic is closed: the next collect must still restore the stored event
+			// states (previous levels, topic level, listing) and hand the event to exactly the handlers then on record
+			for _, closedOp := range []string{"reg-spec", "reg-anon", "dereg", "replace", "rename", "reg-spec-other-topic"} {
+				tr := svc.Begin(t)
+				tr.Register("h1", a)
+				tr.Register("h2", Cfg{Topic: "t1", Kind: "rec", Match: "warn"})
+				tr.CollectTag("t1", "a", 2, 0, "a")
+				tr.CollectTag("t1", "b", 3, 1, "a")
+				tr.CloseRestore("t1")
+				switch closedOp {
+				case "reg-spec":
+					tr.Register("h3", b)
+				case "reg-anon":
+					tr.Register("h3", Cfg{Topic: "t1", Kind: "rec", Match: "none"})
+				case "dereg":
+					tr.Deregister("h1")
+				case "replace":
+					tr.Replace("h1", b)
+				case "rename":
+					tr.Rename("h1", "h3", b)
+				case "reg-spec-other-topic":
+					tr.Register("h3", Cfg{Topic: "t2", Kind: "rec", Match: "changed"})
+				}
+				tr.CollectTag("t1", "a", 3, 2, "a")
+				tr.CollectTag("t1", "b", 1, 3, "b")
+				tr.CollectTag("t1", "c", 2, 4, "a")
+				tr.End()
+				n++
+				t.Distinct(fmt.Sprintf("restore-closed/%d/%d/%s", ai, bi, closedOp))
+			}
 		}
 	}
 	r.Finish("persisting alert service: spec handlers registered, updated, renamed or removed, then CloseTopic and restore by the next collect (all stored states non-OK); later events must reach exactly the handlers on record and no retired recorder; distinct by (configs, variant)", true)
